@@ -2261,12 +2261,8 @@ func (self *Aof) GetLockCommandExpriedTime(lockDb *LockDB, aofLock *AofLock) uin
 	if aofLock.ExpriedFlag&protocol.EXPRIED_FLAG_MINUTE_TIME != 0 {
 		expriedTimeSeconds := lockDb.currentTime - int64(aofLock.CommandTime)
 		if expriedTimeSeconds >= 0 {
-			expriedTimeMinutes := expriedTimeSeconds / 60
-			if expriedTimeSeconds < 60 || expriedTimeSeconds%60 != 0 {
-				expriedTimeMinutes++
-			}
-			if aofLock.ExpriedTime > uint16(expriedTimeMinutes) {
-				return aofLock.ExpriedTime - uint16(expriedTimeMinutes)
+			if remainingSeconds := int64(aofLock.ExpriedTime)*60 - expriedTimeSeconds; remainingSeconds > 0 {
+				return uint16((remainingSeconds + 59) / 60)
 			}
 			return 0
 		}
@@ -2298,7 +2294,7 @@ func (self *Aof) GetAofLockExpriedTime(lockCommand *protocol.LockCommand, lock *
 		return lockCommand.Expried
 	}
 	if lockCommand.ExpriedFlag&protocol.EXPRIED_FLAG_MINUTE_TIME != 0 {
-		expriedTimeSeconds := lock.expriedTime - int64(aofLock.CommandTime)
+		expriedTimeSeconds := lock.expriedTime - 1 - int64(aofLock.CommandTime)
 		if expriedTimeSeconds >= 0xffff*60 {
 			return 0xffff
 		}
